@@ -226,9 +226,10 @@ def random_graph(rnd, n):
     meta = [x for x in names if kind[x] in ("op", "sim", "sum") and rnd.random() < 0.2]
     cand = [["n", x] for x in names] + [["o", x] for x in names if kind[x] in ("sim", "sum", "disc")]
     outs = rnd.sample(cand, rnd.randint(1, min(4, len(cand))))
-    wv = [x for x in names if kind[x] != "const" and rnd.random() < 0.15]
+    wv = [x for x in names if rnd.random() < (0.15 if kind[x] != "const" else 0.1)]        # constants can be given too
     used = {p for x in names for p in pos[x]} - {e[1] for x in names for e in named[x]}
     implicit = [x for x in names if kind[x] == "const" and x in used and ["n", x] not in outs and rnd.random() < 0.4]
+    wv = [x for x in wv if x not in implicit]        # an implicit constant has a private auto-name: it cannot be named in with_values
     meta_false = [x for x in names if kind[x] in ("op", "sim", "sum") and x not in meta and rnd.random() < 0.25]
     return dict(nodes=names, kind=kind, pos=pos, named=named, obs=obs, meta=meta, meta_false=meta_false, outs=outs, wv=wv, implicit=implicit,
                 bs=rnd.choice([1, 2, 5]), seed=rnd.randint(0, 10 ** 6))
